@@ -27,6 +27,37 @@ def scn(params):
     prop = params["prop"]
     seed = params["seed"]
     out = {"violations": [], "nontrivial": [], "stats": {}, "evaluations": 1, "sets": {}}
+    if params["kind"] == "sweep":
+        # one session per (record type, downstream codec); a fragment-size probe for EVERY reply size in a range: the server's
+        # answer writer sees every payload length once (TXT string boundaries at 255-byte strings, host-name chunking, MX/SRV
+        # record counts, the 512-byte mark), each answer judged by the property's monitor
+        cfg = params["cfg"]
+        s = sessions.run_session("%s-w%d" % (prop, params["idx"]), cfg, seed, setup_only=True)
+        try:
+            if not s.ok:
+                out["inconclusive"] = s.why
+                return out
+            mc = s.mcs[0]
+            rng = random.Random(params["seed"])
+            filler = proto.BASE32.encode(bytes(rng.getrandbits(8) for _ in range(20)))
+            n = 0
+            for size in range(params["lo"], params["hi"]):
+                mc.ask(proto.msg_fragprobe(mc.domain, mc.userid, size, filler + proto.BASE32.encode(bytes([size & 255, size >> 8, n & 255]))), timeout_us=50000)
+                n += 1
+                if n % 64 == 0:
+                    mc.drain()
+                    mc.replies.clear()
+            v, st = _apply(prop, s.sim.k, s.server_domain, False, None, out)
+            for (key, what, wit) in v[:3]:
+                out["violations"].append((key, what, dict(wit, seed=seed, cfg=_jcfg(cfg), sweep=[params["lo"], params["hi"]])))
+            out["stats"]["sweep_probes"] = n
+            if s.sim.health(s.srv) != "running":
+                out["inconclusive"] = "server-" + s.sim.health(s.srv).split(":")[0]
+            elif n:
+                out["nontrivial"].append(repr(("sweep", cfg["clients"][0]["qtype"], cfg["clients"][0]["down"], params["lo"] // 512)))
+            return out
+        finally:
+            s.sim.close()
     if params["kind"] == "session":
         cfg = params["cfg"]
         s = sessions.run_session("%s-%d" % (prop, params["idx"]), cfg, seed)
@@ -200,6 +231,24 @@ def run_generic(ctx, prop, rule, n_quick, n_thorough, min_nt_quick, min_nt_thoro
         else:
             plist.append({"prop": prop, "kind": "session", "idx": i, "seed": ctx.seed * 100000 + i,
                           "cfg": sessions.gen_session_cfg(rng, i + ctx.seed)})
+    if prop == "C10":
+        # reply-size sweeps: every size 2..1400 (quick) / 2..2400 (thorough; the largest the probe command can ask for is 2047)
+        # for every record type x downstream codec
+        hi_all = ctx.pick(1400, 2400)
+        j = 0
+        for qt in sessions.QT:
+            if qt in (proto.T_NULL, proto.T_PRIVATE):
+                downs = [None, "r"]
+            elif qt == proto.T_TXT:
+                downs = [None, "s", "u", "v", "r"]
+            else:
+                downs = [None, "s", "u", "v"]
+            for dn in downs:
+                for lo in range(2, hi_all, 350):
+                    cc = {"qtype": qt, "down": dn, "up": "Base32", "lazy": False, "frag": 100, "edns0": True, "raw": False, "v6": False, "nofrag": True}
+                    plist.append({"prop": prop, "kind": "sweep", "idx": 900000 + j, "seed": ctx.seed * 100000 + 90000 + j, "lo": lo, "hi": min(lo + 350, hi_all),
+                                  "cfg": {"clients": [cc], "nops": 0, "check_ip_off": False, "ns_ip": None, "wild": False, "rseed": 77 + j, "bind": False}})
+                    j += 1
     if ctx.replay:
         plist = [ctx.replay["witness"]["params"]]
     res.min_evaluations = max(1, len(plist) // 2)
